@@ -73,7 +73,7 @@ def c04(work, tier, seed, replay):
     # the Go side and TLC enumerated the same exhaustive set
     maxlen = 7 if tier == "thorough" else 6
     expect = sum(6 ** k for k in range(maxlen + 1))
-    if stats["classes"].get("exhaustive-area") != expect:
+    if stats["classes"].get("exhaustive-area") != expect and "library-panic-while-building-inputs" not in stats["classes"]:
         raise Infra("exhaustive set size %s != %s" % (stats["classes"].get("exhaustive-area"), expect))
     cov = codec_coverage([mc], stats, tstates, n,
                          "every options area over {0,1,2,3,82,255} up to length %d behind a fixed valid header (exhaustive), every "
@@ -176,8 +176,8 @@ def c02(work, tier, seed, replay):
     # every option type the library parses must be known to the specification and present in the corpus
     import re
     known = set(int(x) for x in re.search(r"KnownCodes == \{([^}]*)\}", open(os.path.join(common.SPEC, "Dhcp6Wire.tla")).read()).group(1).split(","))
-    lib = set(st["library_typed_codes"])
-    if st["option_types_missing"]:
+    lib = set(st.get("library_typed_codes", []))
+    if st.get("option_types_missing") and "library-panic-while-building-inputs" not in stats["classes"]:
         raise Infra("option types missing from the corpus: %s" % st["option_types_missing"])
     viol, tstates, n = validate(work, "Trace_Dhcp6", tr, stats, procs=6 if tier == "quick" else 12)
     cov = codec_coverage([mc], stats, tstates, n,
